@@ -165,6 +165,10 @@ func (b bitStringEncoder) Len() int {
 func (b bitStringEncoder) Encode(dst []byte) {
 	// x.690 8.6
 	dst[0] = byte(8 - b.BitLength%8)
+	if b.BitLength%8 == 0 {
+		// no unused bits in the final octet
+		dst[0] = 0
+	}
 	copy(dst[1:], b.Bytes)
 }
 
